@@ -86,12 +86,14 @@ func runC05(r *drv.Run) drv.Spec {
 	}
 	e := newCenv(r, cbuild.VAsan)
 	maxLen, nGen, mutPer := 2500, 40, 1
-	budget := 60000 // total chunked decodes in sweeps
+	budget := 20000 // total chunked decodes in sweeps
 	if r.Thorough() {
 		maxLen, nGen, mutPer = 8192, 400, 3
 		budget = 3000000
 	}
+	corpus.MaxXzPreset = 1 // dictionaries <= 1 MiB so that the per-run work buffer stays small
 	items := smallCorpus(r, "c05", maxLen, nGen, mutPer)
+	corpus.MaxXzPreset = 6
 	rr := vk.CaseRNG(r.Seed, 0, "c05-order", 0)
 	rr.Shuffle(len(items), func(i, j int) { items[i], items[j] = items[j], items[i] })
 	if err := corpus.WriteItems(r.Scratch+"/c05", items, "s"); err != nil {
@@ -112,7 +114,15 @@ func runC05(r *drv.Run) drv.Spec {
 		if isImage(it.Kind) {
 			base += " pixfmt=bgra wb=max"
 		} else if !isHasher(it.Kind) && !isToken(it.Kind) {
-			base += " dtotal=300000" + wbFor(it.Kind)
+			// one object + buffers are allocated per chunked run: keep them small
+			base += " dtotal=100000"
+			if it.Kind == "lzma" || it.Kind == "xz" || it.Kind == "lzip" {
+				// must cover the dictionary of every input (a too small work buffer is a
+				// client error whose report legitimately depends on where suspensions fall)
+				base += " wbfixed=8389000"
+			} else {
+				base += " wb=max"
+			}
 		}
 		jobs = append(jobs, &wd.Job{Text: "job=sweep axis=src " + base + "\n", Tag: it})
 		used += len(it.Enc) + 1
